@@ -53,6 +53,10 @@ import PyodaProofs.GenAgreeC14W
 #print axioms Pyoda.GenAgree.C14.gen_WindowsZones_read_eq
 #print axioms Pyoda.GenAgree.C14.gen_Zone1970Location_read_loop1_eq
 #print axioms Pyoda.GenAgree.C14.gen_Zone1970Location_read_eq
+#print axioms Pyoda.GenAgree.C14.gen_FixedZone_read_eq
+#print axioms Pyoda.GenAgree.C14.gen_AltMap_read_eq
+#print axioms Pyoda.GenAgree.C14.gen_PrecalcZone_read_loop1_eq
+#print axioms Pyoda.GenAgree.C14.gen_PrecalcZone_read_eq
 #print axioms Pyoda.GenAgree.C14S.gen_Field_ctor_eq
 #print axioms Pyoda.GenAgree.C14S.gen_Field_getId_eq
 #print axioms Pyoda.GenAgree.C14S.gen_readFields_step
